@@ -154,6 +154,8 @@ class Analyzer:
 
     def cond_cases(self, n):
         """(true_dnf, false_dnf); a dnf is a list of constraint lists; data tests -> ([[]], [[]])."""
+        if n is None:
+            return ([[]], [])  # Cython folds `while 1` into a condition-less loop
         k = tname(n)
         if k in ("CoerceToTempNode", "ProxyNode", "BoolBinopResultNode", "CoerceToBooleanNode", "CloneNode", "TypecastNode"):
             return self.cond_cases(n.arg if hasattr(n, "arg") else n.operand)
@@ -402,7 +404,10 @@ class Analyzer:
             while tname(r) in ("CoerceToTempNode", "CloneNode"):
                 r = r.arg
             if tname(r) in ("GeneralCallNode", "SimpleCallNode") and tname(r.function) == "AttributeNode" and r.function.attribute in ("empty", "zeros", "ones"):
-                args = r.positional_args.args if tname(r) == "GeneralCallNode" else r.args
+                if tname(r) == "GeneralCallNode":
+                    args = r.positional_args.args
+                else:
+                    args = r.args if getattr(r, "args", None) is not None else r.arg_tuple.args
                 if args:
                     try:
                         e = self.lin(args[0])
@@ -449,7 +454,8 @@ class Analyzer:
             exits = []
             cur = entry_states
             for it in range(self.unroll):
-                self.check_expr(n.condition, cur)
+                if n.condition is not None:
+                    self.check_expr(n.condition, cur)
                 tdnf, fdnf = self.cond_cases(n.condition)
                 exits += self.split(cur, fdnf, None)
                 head = self.split(cur, tdnf, "L%d:iter%d" % (n.pos[1], it + 1))
@@ -503,7 +509,8 @@ class Analyzer:
             self.loops.append({"line": n.pos[1], "candidates": len(cands), "invariant_conjuncts": len(inv), "rounds": rounds})
             tdnf, fdnf = self.cond_cases(n.condition)
             head = [St.of(inv + c) for c in tdnf]
-            self.check_expr(n.condition, [St.of(inv)])
+            if n.condition is not None:
+                self.check_expr(n.condition, [St.of(inv)])
             out, brk = self.exec(n.body, [h for h in head if feasible(h)])  # recording pass
             exits += brk + [x for x in (St.of(inv + c) for c in fdnf) if feasible(x)]
         return exits
